@@ -14,8 +14,9 @@ RowOK(e) ==
      /\ Entitled(n, sp, pr, slot, e.from) = tr /\ Entitled(n, sp, pr, slot, e.to - 1) = tr
      /\ (e.from > now => \A k \in 1..n : e.from - k * slot < 0 \/ e.from - k * slot + slot <= now
                                           \/ Entitled(n, sp, pr, slot, e.from - k * slot) # tr)
-     /\ e.wake = WakeUp(n, d, slot, e.bi, now) /\ e.end = e.to
-     /\ e.wake >= now /\ Entitled(n, sp, pr, slot, e.wake) = tr      \* the miner wakes inside its own window
+     /\ e.end = e.to
+     \* the miner wakes inside that window (WHEN inside it - e.g. the block-interval delay of the in-turn fast path - is its own business)
+     /\ e.wake >= now /\ e.wake >= e.from /\ e.wake < e.to /\ Entitled(n, sp, pr, slot, e.wake) = tr
      /\ \A i \in 1..Len(e.cm) : e.cm[i][2] = Entitled(n, sp, pr, slot, e.cm[i][1])   \* verifier's miner = the entitled one
      /\ \A i \in 1..Len(e.ver) :
           LET t == e.ver[i][1]
